@@ -2,6 +2,7 @@ package main
 
 import (
 	"fmt"
+	"go/types"
 	"strings"
 
 	"golang.org/x/tools/go/ssa"
@@ -238,7 +239,7 @@ func (c *Ctx) reachUnder(site ssa.Instruction, H map[string]bool, depth int) (bo
 	if !fb[site.Block()] {
 		return false, ""
 	}
-	if depth > 4 {
+	if depth > 8 {
 		return true, "call chain too deep"
 	}
 	if f.Parent() == nil && isExported(f) {
@@ -248,13 +249,25 @@ func (c *Ctx) reachUnder(site ssa.Instruction, H map[string]bool, depth int) (bo
 	if len(callers) == 0 {
 		return true, "reachable in " + funcName(f) + " (no callers in package: entry point)"
 	}
-	H2 := map[string]bool{}
-	for h := range H {
-		if !strings.Contains(h, "param") && !strings.Contains(h, "local:") && !strings.Contains(h, "alloc:") {
-			H2[h] = true
-		}
-	}
 	for _, cs := range callers {
+		// atoms about parameters/locals of f do not translate to the caller,
+		// except param0 between methods of the same receiver type called on
+		// the caller's own receiver
+		sameRecv := false
+		if cc := callCommon(cs); cc != nil && f.Signature.Recv() != nil && cs.Parent().Signature.Recv() != nil &&
+			types.Identical(f.Signature.Recv().Type(), cs.Parent().Signature.Recv().Type()) && len(cc.Args) > 0 && describe(cc.Args[0]) == "param0" {
+			sameRecv = true
+		}
+		H2 := map[string]bool{}
+		for h := range H {
+			hh := h
+			if sameRecv {
+				hh = strings.ReplaceAll(hh, "param0", "")
+			}
+			if !strings.Contains(hh, "param") && !strings.Contains(hh, "local:") && !strings.Contains(hh, "alloc:") {
+				H2[h] = true
+			}
+		}
 		if ok, w := c.reachUnder(cs, H2, depth+1); ok {
 			return true, funcName(f) + " <- " + w
 		}
